@@ -155,6 +155,21 @@ def idleSubLaw (lost dup : Nat) (badIt : Int) : Option String :=
     some s!"C10 {dup} accepted task(s) were executed / handed back more than once (iteration {badIt})"
   else none
 
+/-- C10, gated burst release above coreGo: nobody shuts the pool down and its idle timers cannot expire, so
+    (1) every queued task is executed within the (generous) bound and (2) white-box, the live-worker counter
+    never drops below min(coreGo, its observed peak) (`c10_core_floor`); plus the exactly-once accounting
+    after the final ShutdownNow.  Distinct from known finding C12-F2, which needs idle-timeout exits. -/
+def gburstLaw (late floorviol lost dup : Nat) (core badLow badPeak badTrial : Int) : Option String :=
+  if floorviol > 0 then
+    some s!"C10 a running pool (idle timers cannot have expired) retired its workers down to totalGo={badLow} below min(coreGo={core}, peak={badPeak}): queued accepted tasks lose the workers that must execute them (trial {badTrial})"
+  else if late > 0 then
+    some s!"C10 {late} accepted task(s) were not executed by a running pool that nobody shut down (trial {badTrial})"
+  else if lost > 0 then
+    some s!"C10 {lost} accepted task(s) were neither executed nor handed back by ShutdownNow (trial {badTrial})"
+  else if dup > 0 then
+    some s!"C10 {dup} accepted task(s) were executed / handed back more than once (trial {badTrial})"
+  else none
+
 /-- C12, hand-off scenario: the done channel was never observed closed while an accepted task had not
     finished (`early`), no accepted task started with the already cancelled pool context (`cstart`:
     received but not yet started counts as unfinished), and Shutdown completed in every round -/
